@@ -10,6 +10,7 @@ import OFV.Proofs.C19Qrom
 import OFV.Proofs.C19QR
 import OFV.Proofs.C19Cost
 import OFV.Proofs.C19LambdaFinal
+import OFV.Proofs.C19LambdaOracle
 import OFV.Proofs.C19Mono
 
 namespace OFV.C19
@@ -181,8 +182,8 @@ transform (`jwDCHOk`: no `+=` discards a non-zero value, evaluated by the driver
 * the image acts on every basis state like the Spec operator `const + Σ T_pq a†_p a_q + Σ V_pq n_p n_q`
   (`C04.jw_dch_sound`, restated here for the same hypotheses).
 
-Not proved: that the coefficient list of the image is THE Pauli decomposition in the sense of `Spec.C19.jwOneNorm`
-(orthogonality of Pauli strings under the trace); the harness oracle checks that equality on every generated input. -/
+That the coefficient list of the image is THE Pauli decomposition in the sense of the oracle `Spec.C19.jwOneNorm` is
+`pauli_decomposition_unique` / `lambda_norm_oracle` below. -/
 theorem lambda_norm_spec (tol : Rat) (n : Nat) (const : GQ) (one two : List GQ) (T V : List (List Rat))
     (hn : T.length = n)
     (hT : ∀ p q, p < n → q < n → Model.C04.get1 n one p q = Model.C04.rl (mat T p q))
@@ -211,6 +212,35 @@ example :
     Model.C04.jwDCHOk Generated.eqTolerance 3 ⟨mkRat 3 4, 0⟩ one two = true
       ∧ lambdaNorm T V = OFV.C19Jw.pauliNormNonId (Model.C04.jwDCH Generated.eqTolerance 3 ⟨mkRat 3 4, 0⟩ one two) := by
   decide +kernel
+
+/-- **Uniqueness of the Pauli decomposition, in the form the Spec oracle evaluates it.**  Let `A` be any fermionic
+operator and `R` a qubit operator in Pauli form — pairwise different keys, every key a canonical string on `n` qubits
+(strictly increasing qubit indices `< n`, letters X / Y / Z), real coefficients on the non-identity strings — that acts
+on every basis state like `A`.  Then `jwOneNorm n A false` (which enumerates all `4^n` mask pairs `(x, z)` and takes the
+trace of `P_{x,z} A` over all `2^n` Fock states, using only the Spec ladder action) returns exactly the sum of `|c|` over
+the non-identity strings of `R`.  Proof: trace orthogonality of canonical strings (`Σ_s (-1)^{|w ∧ s|} = 0` for `w ≠ 0` by
+a sign-reversing involution), the mask pair determines the string, and the action of a canonical string is
+`i^{#Y} (-1)^{|zmask ∧ s|} |s ⊕ xmask⟩`. -/
+theorem pauli_decomposition_unique (n : Nat) (A R : Model.Op) (wf : Dict.WF R)
+    (hcanon : ∀ tc ∈ R, OFV.C19P.Canon n tc.1) (hreal : ∀ tc ∈ R, tc.1 ≠ [] → tc.2.im = 0)
+    (heq : ∀ m u : Nat, Spec.GV.coeff (Spec.applyOp .qubit R [m]) [u] = Spec.GV.coeff (Spec.applyOp .fermion A [m]) [u]) :
+    jwOneNorm n A false = some (pauliListNorm R false) :=
+  OFV.C19P.jwOneNorm_pauli n A R wf hcanon hreal heq
+
+/-- **`lambda_norm` is the value of the Spec oracle** for every `n` and every real symmetric DiagonalCoulombHamiltonian:
+the Model of `lambda_norm` equals `jwOneNorm` (1-norm of the non-identity coefficients of the Pauli decomposition,
+computed from the Spec ladder action on all Fock states) of `const + Σ T_pq a†_p a_q + Σ V_pq n_p n_q`, on every exact
+run of the Model of the Jordan-Wigner transform (hypothesis `jwDCHOk`, evaluated by the driver on every generated
+Hamiltonian). -/
+theorem lambda_norm_oracle (tol : Rat) (n : Nat) (const : GQ) (one two : List GQ) (T V : List (List Rat))
+    (hn : T.length = n)
+    (hT : ∀ p q, p < n → q < n → Model.C04.get1 n one p q = Model.C04.rl (mat T p q))
+    (hV : ∀ p q, p < n → q < n → Model.C04.get1 n two p q = Model.C04.rl (mat V p q))
+    (symT : ∀ p q, p < n → q < n → mat T q p = mat T p q)
+    (symV : ∀ p q, p < n → q < n → mat V q p = mat V p q)
+    (hok : Model.C04.jwDCHOk tol n const one two = true) :
+    jwOneNorm n (Spec.C04.dchOp n const one two) false = some (lambdaNorm T V) :=
+  OFV.C19Jw.lambdaNorm_eq_oracle tol n const one two T V hn hT hV symT symV hok
 
 /-- `lambda_norm_spec` in the form the driver evaluates (`c19.spec.dch_pauli_norm`): the matrices are flattened by
 `Spec.C19.flatReal`, the threshold is the extracted `EQ_TOLERANCE`; the driver reports `jwDCHOk` and the 1-norm
